@@ -16,6 +16,7 @@ options.bytealigned reconfiguration.  `pos` of a BitStream is ignored entirely (
 """
 from __future__ import annotations
 
+import io
 import operator
 import re
 
@@ -37,7 +38,7 @@ NONE, SELF = 'none', 'self'            # return-value sentinels (ints stand for 
 
 OBJ_FORMS = ('Bits', 'BitArray', 'ConstBitStream', 'BitStream')
 STR_FORMS = ('bin', 'hex', 'oct')
-BYTE_FORMS = ('bytes', 'bytearray', 'memoryview')
+BYTE_FORMS = ('bytes', 'bytearray', 'memoryview', 'bytesio', 'bytesio_written')
 SEQ_FORMS = ('list', 'tuple', 'iterable')
 BAD_FORMS = ('int', 'none', 'float', 'badstr', 'badbin')
 GOOD_FORMS = OBJ_FORMS + STR_FORMS + BYTE_FORMS + SEQ_FORMS
@@ -338,6 +339,13 @@ class EMut(Engine):
             return '0o' + format(int(b, 2), f'0{len(b) // 3}o')
         if f in BYTE_FORMS:
             raw = int(b, 2).to_bytes(len(b) // 8, 'big') if b else b''
+            if f == 'bytesio':
+                return io.BytesIO(raw)
+            if f == 'bytesio_written':
+                # filled by write() (as tofile() would leave it): positioned at its end, and its content is still the whole buffer
+                bio = io.BytesIO()
+                bio.write(raw)
+                return bio
             return raw if f == 'bytes' else bytearray(raw) if f == 'bytearray' else memoryview(raw)
         bools = [c == '1' for c in b]
         if f == 'list':
@@ -375,6 +383,8 @@ class EMut(Engine):
             return repr(self._oobj(o, []))
         if f in BYTE_FORMS:
             raw = int(b, 2).to_bytes(len(b) // 8, 'big') if b else b''
+            if f in ('bytesio', 'bytesio_written'):
+                return f'io.BytesIO({raw!r})' if f == 'bytesio' else f'(lambda b: (b.write({raw!r}), b)[1])(io.BytesIO())'
             return repr(raw) if f == 'bytes' else f'{f}({raw!r})'
         bools = [int(c) for c in b]
         if f == 'list':
